@@ -179,6 +179,8 @@ def finish(prop, tier, seed, level, results, t_start, repo, functions_under_cont
             payload = dict(r["replay"])
             payload["obligation"] = ob["name"]
             payload["model"] = ob.get("model")
+            if ":coupling-rows" in ob["name"]:
+                payload["harness"] = "grid_diff"
             payload["seed"] = seed
             res = native_replay(prop, repo, payload, rp)
             rec["native"] = res
